@@ -772,7 +772,7 @@ func TestC25(t *testing.T) {
 	fasthttp.VerifSetPointHook(hook)
 	defer fasthttp.VerifSetPointHook(nil)
 
-	n := r.N(128, 4000)
+	n := r.N(128, 2500)
 	var mu sync.Mutex
 	sigs := map[uint64]struct{}{}
 	bigrams := map[string]int{}
